@@ -470,14 +470,19 @@ def k_hypot(ctx, prm, a, b):
     return [interp.map_obj(P.hypot, a, b)]
 
 
+# the random kernels are the jax.random routines themselves (resolved once: contracts/backend.py patches the module
+# attributes while it traces the repository's wrappers, which are under delegation contracts there)
+_JR = {"prng_key": jax.random.PRNGKey, "split": jax.random.split, "normal": jax.random.normal, "rademacher": jax.random.rademacher}
+
+
 def k_prng_key(ctx, prm):
     seed = prm["static"][0]
-    return [np.asarray(ORIG["prng_key"](seed=seed))]
+    return [np.asarray(_JR["prng_key"](seed))]
 
 
 def k_split(ctx, prm, key):
     num = prm["static"][0]
-    return [np.asarray(ORIG["split"](jnp.asarray(np.asarray(key)), num))]
+    return [np.asarray(_JR["split"](jnp.asarray(np.asarray(key)), num))]
 
 
 def k_normal(ctx, prm, key):
@@ -487,7 +492,7 @@ def k_normal(ctx, prm, key):
     out, sids = fresh_array(shape, f"xi{cid}_", kind="draw")
     kk = np.asarray(key)
     CALL_LOG.append({"name": "normal", "operands": [], "out_sids": [sids], "key": kid,
-                     "native": lambda _k=kk, _s=shape: [np.asarray(ORIG["normal"](jnp.asarray(_k), shape=_s, dtype=jnp.float64))]})
+                     "native": lambda _k=kk, _s=shape: [np.asarray(_JR["normal"](jnp.asarray(_k), shape=_s, dtype=jnp.float64))]})
     return [out]
 
 
@@ -500,7 +505,7 @@ def k_rademacher(ctx, prm, key):
         P.POWER_RULES[int(s)] = (2, P.Poly.const(1))
     kk = np.asarray(key)
     CALL_LOG.append({"name": "rademacher", "operands": [], "out_sids": [sids], "key": kid,
-                     "native": lambda _k=kk, _s=shape: [np.asarray(ORIG["rademacher"](jnp.asarray(_k), shape=_s, dtype=jnp.float64))]})
+                     "native": lambda _k=kk, _s=shape: [np.asarray(_JR["rademacher"](jnp.asarray(_k), shape=_s, dtype=jnp.float64))]})
     return [out]
 
 
